@@ -272,6 +272,69 @@ def explain_proj(which, has_root, sub, meson):
     return {"exception": type(EXCS[which]()).__name__, "has_root": has_root, "outcome": _project_outcome(which, has_root, sub, meson)}
 
 
+# ------------------------------------------------------------------ from_toml: tomlkit.loads as a fault point
+import inspect as _inspect  # noqa: E402
+
+import tomlkit.exceptions as _tke  # noqa: E402
+
+
+def _tk_instance(cls):
+    """An instance of a tomlkit exception class, built from its own signature."""
+    fill = {"line": 1, "col": 1, "char": "x", "type": "strings", "message": "m", "key": "path", "value": "v", "invalid_sequences": ["x"], "delimiter": '"'}
+    try:
+        names = [n for n in _inspect.signature(cls.__init__).parameters if n not in ("self", "args", "kwargs")]
+        if names == ["line", "col", "char", "type"]:
+            return cls(1, 1, 7, "strings")
+        return cls(*[fill[n] for n in names])
+    except Exception:  # noqa
+        return cls("x")
+
+
+# every class the installed tomlkit documents as "what loads() may raise": the subclasses of TOMLKitError
+TK_CLASSES = [c for _, c in sorted(vars(_tke).items()) if isinstance(c, type) and issubclass(c, _tke.TOMLKitError)]
+NTK = len(TK_CLASSES)
+
+
+def _tk_outcome(which):
+    i = _pick(which, NTK)
+
+    def fake_loads(text):
+        raise _tk_instance(TK_CLASSES[i])
+
+    real = gl.tomlkit.loads
+    gl.tomlkit.loads = fake_loads
+    try:
+        try:
+            gl.ReuseTOML.from_toml("version = 1", SOURCE)
+            return "returned"
+        except GlobalLicensingParseError as e:
+            return "diagnostic" if e.source == SOURCE else f"diagnostic-without-file(source={e.source!r})"
+        except Exception as e:  # noqa
+            return f"escaped:{type(e).__name__}"
+    finally:
+        gl.tomlkit.loads = real
+
+
+def _tk(which: int) -> bool:
+    """
+    pre: 0 <= which < NTK
+    post: _
+    """
+    return _tk_outcome(which) == "diagnostic"
+
+
+def _tk_reach(which: int) -> bool:
+    """
+    pre: 0 <= which < NTK
+    post: False
+    """
+    return _tk_outcome(which) == "diagnostic"
+
+
+def explain_tk(which):
+    return {"exception": TK_CLASSES[which].__name__, "outcome": _tk_outcome(which)}
+
+
 # ------------------------------------------------------------------ per-file exception funnel
 import reuse.report as rp  # noqa: E402
 
@@ -370,4 +433,4 @@ def explain_funnel(e0, e1, e2):
     return {"faults": [type(FILE_EXCS[e]()).__name__ if e else None for e in es], "subset": SUBSET, "outcome": _funnel_outcome(e0, e1, e2)}
 
 
-EXPLAIN = {"_ob": explain, "_proj": explain_proj, "_funnel": explain_funnel}
+EXPLAIN = {"_ob": explain, "_proj": explain_proj, "_funnel": explain_funnel, "_tk": explain_tk}
